@@ -133,9 +133,10 @@ def audit_axioms(imports, theorems):
     # messages look like: "'Foo.bar' depends on axioms: [propext, Quot.sound]" or
     # "'Foo.bar' does not depend on any axioms"
     flat = re.sub(r"\s+", " ", out)
-    for m in re.finditer(r"'([^']+)' depends on axioms: \[([^\]]*)\]", flat):
+    # (names may end in primes: "'Foo.bar'' depends on …")
+    for m in re.finditer(r"'(\S+?)' depends on axioms: \[([^\]]*)\]", flat):
         res[m.group(1)] = {a.strip() for a in m.group(2).split(",") if a.strip()}
-    for m in re.finditer(r"'([^']+)' does not depend on any axioms", flat):
+    for m in re.finditer(r"'(\S+?)' does not depend on any axioms", flat):
         res[m.group(1)] = set()
     return res, out
 
